@@ -70,6 +70,9 @@ impl GFb127 {
 
     #[inline(always)]
     pub fn set_cond(&mut self, a: &Self, ctl: u32) {
+        // Barrier: prevent the compiler from turning the masking below
+        // into a conditional jump on the (possibly secret) control word.
+        let ctl = core::hint::black_box(ctl);
         let cw = ((ctl as i32) as i64) as u64;
         self.0[0] ^= cw & (self.0[0] ^ a.0[0]);
         self.0[1] ^= cw & (self.0[1] ^ a.0[1]);
@@ -84,6 +87,9 @@ impl GFb127 {
 
     #[inline(always)]
     pub fn cswap(a: &mut Self, b: &mut Self, ctl: u32) {
+        // Barrier: prevent the compiler from turning the masking below
+        // into a conditional jump on the (possibly secret) control word.
+        let ctl = core::hint::black_box(ctl);
         let cw = ((ctl as i32) as i64) as u64;
         let t = cw & (a.0[0] ^ b.0[0]); a.0[0] ^= t; b.0[0] ^= t;
         let t = cw & (a.0[1] ^ b.0[1]); a.0[1] ^= t; b.0[1] ^= t;
@@ -1200,7 +1206,7 @@ impl GFb127 {
             return 0;
         }
         self.set_decode16_reduce(buf);
-        let m = !sgnw(self.0[1]);
+        let m = core::hint::black_box(!sgnw(self.0[1]));
         self.0[0] &= m;
         self.0[1] &= m;
         m as u32
